@@ -1409,6 +1409,8 @@ func execTrie(ops []string, st *Stats) ([]string, []string) {
 	var oracle []string
 	t := trie.NewTrie()
 	var live []livePat
+	pub := badger.VerifNewPublisher()
+	pubPats := map[uint64][][]int{} // subscriber id -> canonical patterns of its matches
 	for i, l := range ops {
 		w := strings.Fields(l)
 		i, l := i, l
@@ -1419,7 +1421,75 @@ func execTrie(ops []string, st *Stats) ([]string, []string) {
 			case w[0] == "reset" && len(w) == 1:
 				t = trie.NewTrie()
 				live = nil
+				pub = badger.VerifNewPublisher()
+				pubPats = map[uint64][][]int{}
 				return "ok"
+			case w[0] == "psub" && len(w) >= 3 && len(w)%2 == 1:
+				var ms []pb.Match
+				var pats [][]int
+				for j := 1; j+1 < len(w); j += 2 {
+					prefix, ig := unhx(w[j]), string(unhx(w[j+1]))
+					ms = append(ms, pb.Match{Prefix: prefix, IgnoreBytes: ig})
+					if ign, ok := specIgnore(ig); ok {
+						pats = append(pats, mkPat(prefix, ign))
+					}
+				}
+				id, err := pub.Subscribe(ms)
+				if err != nil {
+					st.Inc("psub:err")
+					return "err"
+				}
+				pubPats[id] = pats
+				return utoa(id)
+			case w[0] == "punsub" && len(w) == 2:
+				id := atou(w[1])
+				pub.Unsubscribe(id)
+				delete(pubPats, id)
+				return "ok"
+			case w[0] == "ppub" && len(w) == 3:
+				key, ts := unhx(w[1]), atou(w[2])
+				pub.Publish([]*badger.Entry{{Key: y.KeyWithTs(key, ts), Value: []byte("v"), UserMeta: 7, ExpiresAt: 9}})
+				ids := pub.SubscriberIDs()
+				sort.Slice(ids, func(a, b int) bool { return ids[a] < ids[b] })
+				var got []string
+				for _, id := range ids {
+					kvs := pub.Drain(id)
+					// spec (C32): the subscriber receives the write iff one of its patterns matches the USER key
+					want := false
+					for _, p := range pubPats[id] {
+						if len(key) >= len(p) {
+							m := true
+							for j, c := range p {
+								if c >= 0 && int(key[j]) != c {
+									m = false
+									break
+								}
+							}
+							want = want || m
+						}
+					}
+					switch {
+					case len(kvs) > 1:
+						fail(fmt.Sprintf("[publisher-exactly-once] subscriber %d received %d copies", id, len(kvs)))
+					case len(kvs) == 1 && !want:
+						st.Inc("ppub:F10")
+						fail(fmt.Sprintf("[F10:publisher-internal-key] subscriber %d receives user key %x (version %d) which matches none of its patterns: the trie is queried with the internal key incl. timestamp bytes", id, key, ts))
+					case len(kvs) == 0 && want:
+						fail(fmt.Sprintf("[publisher-missing] subscriber %d has a pattern matching user key %x but received nothing", id, key))
+					}
+					if len(kvs) >= 1 {
+						kv := kvs[0]
+						if !bytes.Equal(kv.Key, key) || kv.Version != ts || string(kv.Value) != "v" || kv.ExpiresAt != 9 || len(kv.Meta) != 1 || kv.Meta[0] != 7 {
+							fail(fmt.Sprintf("[publisher-kv] subscriber %d received key=%x version=%d value=%q expires=%d meta=%x for write key=%x version=%d", id, kv.Key, kv.Version, kv.Value, kv.ExpiresAt, kv.Meta, key, ts))
+						}
+						got = append(got, utoa(id))
+					}
+				}
+				st.Inc("ppub:receivers=" + strconv.Itoa(len(got)))
+				if len(got) == 0 {
+					return "-"
+				}
+				return strings.Join(got, ",")
 			case (w[0] == "add" || w[0] == "del") && len(w) == 4:
 				prefix, ig, id := unhx(w[1]), string(unhx(w[2])), atou(w[3])
 				var err error
@@ -1545,6 +1615,7 @@ func genTrie(rng *rand.Rand, n int, st *Stats) []string {
 			id uint64
 		}
 		var hist []added
+		nsubs := 0
 		for k := 0; k < 6+rng.Intn(24); k++ {
 			switch r := rng.Intn(20); {
 			case r < 7:
@@ -1592,6 +1663,33 @@ func genTrie(rng *rand.Rand, n int, st *Stats) []string {
 				ops = append(ops, "get "+hx(key))
 			case r < 19:
 				ops = append(ops, "nodes")
+				// publisher path: subscribe / publish / unsubscribe
+				switch rng.Intn(3) {
+				case 0:
+					op := "psub"
+					for m := 0; m < 1+rng.Intn(2); m++ {
+						p := genTrieKey(rng, 3)
+						if rng.Intn(4) == 0 {
+							p = append(p, 0xff)
+						}
+						ig := trieIgnoreValid[rng.Intn(len(trieIgnoreValid))]
+						if rng.Intn(25) == 0 {
+							ig = trieIgnoreBad[rng.Intn(len(trieIgnoreBad))]
+						}
+						op += " " + hx(p) + " " + hx([]byte(ig))
+					}
+					ops = append(ops, op)
+					nsubs++
+				case 1:
+					if nsubs > 0 {
+						ops = append(ops, fmt.Sprintf("punsub %d", rng.Intn(nsubs+1)))
+					}
+				}
+				for q := 0; q < 2; q++ {
+					ts := []uint64{0, 1, 5, 1 << 32, 1 << 63, 1<<64 - 1, 1<<64 - 2}[rng.Intn(7)]
+					// user keys are never empty in badger (ErrEmptyKey)
+					ops = append(ops, fmt.Sprintf("ppub %s %d", hx(append(genTrieKey(rng, 3), trieAlphabet[rng.Intn(len(trieAlphabet))])), ts))
+				}
 			default:
 				ig := trieIgnoreValid[rng.Intn(len(trieIgnoreValid))]
 				if rng.Intn(2) == 0 {
